@@ -392,6 +392,14 @@ func c19Case(c *vc.Ctx, idx int) {
 		}
 		var items []item
 		num, seq, _ := ch.Account(g.Proposer.Addr)
+		// directed: one voted message per block (kinds in turn) without its vote sub-message, through the mempool door and
+		// into the block - whoever touches the vote first (a stateless check, the proposal builder, the handler) must cope
+		if m, ok := bm.payload(voteKinds[blk%len(voteKinds)], g.Proposer.AddrStr, r.Intn(1000)); ok {
+			if raw, err := w.SignTx(world.TxSpec{Msgs: []sdk.Msg{m}, Priv: g.Proposer.Tx, AccNum: num, Seq: seq}); err == nil {
+				items = append(items, item{m, fmt.Sprintf("%T/no-vote-sub-message", m), raw})
+				c.Count("voted_messages_without_a_vote_sub_message", 1)
+			}
+		}
 		for k := 0; k < 11; k++ {
 			base := corpus[r.Intn(len(corpus))]
 			m, op, ok := reparse(r, base)
